@@ -738,6 +738,7 @@ pub fn main(opts: &Opts) {
     report.count_n("corpus_values", corpus_values.len() as u64);
 
     long_bodies(&mut report, &prop);
+    many_elements(&mut report, &prop);
     deep_nesting_probes(&mut report, &prop);
 
     for k in 0..(n_values + corpus_values.len() as u64) {
@@ -1218,6 +1219,50 @@ fn long_bodies(report: &mut Report, prop: &str) {
                     }
                 }
             }
+        }
+    }
+}
+
+/// values with many elements in several arrays: each array stays within MAX_ARRAY_COUNT, together they hold
+/// more elements than the decoder's budget of body-less array elements — which is a budget of elements that
+/// take no bytes, not of arrays in general.  Round trip and size on the implementation (lines of this size
+/// are not sent to the driver; the model's budget is tied to the source by `source_zero_width_codes`).
+fn many_elements(report: &mut Report, prop: &str) {
+    use serde_amqp::primitives::{Array, Timestamp, Uuid};
+    let ints = |n: usize| Value::Array(Array::from((0..n).map(|i| Value::Int(i as i32 * 7 - 3)).collect::<Vec<_>>()));
+    let ubytes = |n: usize| Value::Array(Array::from((0..n).map(|i| Value::Ubyte(i as u8)).collect::<Vec<_>>()));
+    let stamps = |n: usize| Value::Array(Array::from((0..n).map(|i| Value::Timestamp(Timestamp::from_milliseconds(i as i64 * 1000))).collect::<Vec<_>>()));
+    let uuids = |n: usize| Value::Array(Array::from((0..n).map(|i| Value::Uuid(Uuid::from([i as u8; 16]))).collect::<Vec<_>>()));
+    let bools = |n: usize| Value::Array(Array::from((0..n).map(|i| Value::Bool(i % 3 == 0)).collect::<Vec<_>>()));
+    let values: Vec<(&str, Value)> = vec![
+        ("two arrays of 40000 ints", Value::List(vec![ints(40000), ints(40000)])),
+        ("arrays of 30000 ubytes, 30000 timestamps and 30000 uuids", Value::List(vec![ubytes(30000), stamps(30000), uuids(30000)])),
+        ("an array of 65536 ints beside an array of 9 booleans", Value::List(vec![ints(65536), bools(9)])),
+        ("five lists of 20000 small uints each", Value::List((0..5).map(|k| Value::List((0..20000u32).map(|i| Value::Uint(i % 200 + k)).collect())).collect())),
+    ];
+    for (what, v) in values.iter() {
+        report.evaluations += 1;
+        report.count("many_elements");
+        let replay = json!({"property": prop, "module": "codec", "many_elements": what});
+        let enc = match serde_amqp::to_vec(v) {
+            Ok(b) => b,
+            Err(e) => {
+                report.finding(Finding { kind: "violation", key: "encode-error:in-scope".into(), description: format!("to_vec of {} failed: {:?}", what, e), replay });
+                continue;
+            }
+        };
+        match serde_amqp::from_slice::<Value>(&enc) {
+            Ok(w) if w == *v => {}
+            r => report.finding(Finding { kind: "violation", key: "roundtrip:in-scope".into(), description: format!("{} ({} bytes encoded) does not come back from its encoding: {}", what, enc.len(), match r { Ok(_) => "a different value".to_string(), Err(e) => format!("{:?}", e) }), replay: replay.clone() }),
+        }
+        match serde_amqp::serialized_size(v) {
+            Ok(n) if n == enc.len() => {}
+            r => report.finding(Finding { kind: "violation", key: "size:in-scope".into(), description: format!("serialized_size of {} = {:?}, the encoding has {} bytes", what, r.ok(), enc.len()), replay: replay.clone() }),
+        }
+        let src = Chunked { data: &enc, pos: 0, chunk: 65536, interrupt_at: None, calls: 0 };
+        match std::panic::catch_unwind(std::panic::AssertUnwindSafe(|| serde_amqp::from_reader::<Value>(src))).unwrap_or_else(|_| Err(serde::de::Error::custom("the stream decoder panicked"))) {
+            Ok(w) if w == *v => {}
+            r => report.finding(Finding { kind: "violation", key: "io-vs-slice:in-scope".into(), description: format!("from_reader of {}: {}", what, match r { Ok(_) => "a different value".to_string(), Err(e) => format!("{:?}", e) }), replay: replay.clone() }),
         }
     }
 }
